@@ -30,6 +30,7 @@ func main() {
 		replay   = flag.String("replay", "", "re-run one replay file natively")
 		trace    = flag.Bool("trace", false, "debug output")
 		maxPaths = flag.Int("maxpaths", 0, "override path budget")
+		cross    = flag.String("cross", "", "second solver cross-checking unsat verdicts (default: z3 in the thorough tier; 'none' disables)")
 		list     = flag.Bool("list", false, "list harnesses")
 		inventory = flag.Bool("inventory", false, "list external callees of fosite and their treatment")
 	)
@@ -41,7 +42,7 @@ func main() {
 		*workers = runtime.NumCPU()
 	}
 	r := &runner{repo: *repo, verif: *verif, prop: *prop, tier: *tier, seed: *seed, workers: *workers, solver: *solver,
-		noReplay: *noReplay, trace: *trace, only: *only, maxPaths: *maxPaths}
+		noReplay: *noReplay, trace: *trace, only: *only, maxPaths: *maxPaths, cross: *cross}
 	if *replay != "" {
 		os.Exit(r.replayOne(*replay))
 	}
@@ -68,7 +69,7 @@ func main() {
 }
 
 type runner struct {
-	repo, verif, prop, tier, solver, only string
+	repo, verif, prop, tier, solver, only, cross string
 	seed, workers, maxPaths               int
 	noReplay, trace                       bool
 	prog                                  *interp.Program
@@ -149,6 +150,13 @@ func (r *runner) run() int {
 		cfg.TimeoutMs = 60000
 		cfg.MaxPaths = 60000
 		cfg.MaxDecisions = 1500
+		cfg.CrossSolver = "z3"
+	}
+	if r.cross != "" {
+		cfg.CrossSolver = r.cross
+		if r.cross == "none" {
+			cfg.CrossSolver = ""
+		}
 	}
 	if r.maxPaths > 0 {
 		cfg.MaxPaths = r.maxPaths
@@ -168,6 +176,9 @@ func (r *runner) run() int {
 		fmt.Printf("harness %s: paths=%d completed=%d edges=%d queries=%d (sat %d unsat %d unknown %d) solver=%.1fs wall=%.1fs discharged=%d concrete-true=%d candidates=%d\n",
 			n, len(res.Paths), res.Completed, res.Edges, res.Stats.Queries, res.Stats.Sat, res.Stats.Unsat, res.Stats.Unknown,
 			float64(res.Stats.Nanos)/1e9, res.Wall.Seconds(), res.Discharged, res.ConcreteTrue, len(res.Violations))
+		if res.CrossAgree+res.CrossUnknown+res.CrossDisagree > 0 {
+			fmt.Printf("  second solver (%s) on unsat verdicts: confirmed=%d unknown=%d disagreed=%d\n", cfg.CrossSolver, res.CrossAgree, res.CrossUnknown, res.CrossDisagree)
+		}
 		for what, c := range res.Unmodelled {
 			fmt.Printf("INCONCLUSIVE unmodelled harness=%s paths=%d reason=%q\n", n, c, what)
 		}
